@@ -362,6 +362,39 @@ def run(ctx):
         break
     if ev is not None:
       traces.append({'events': ev, 'meta': {'algorithm': name, 'histories': 3}})
+  # the library's own pytree serialiser on the parameters of an INITIAL state, whose leaves are whatever the user handed to
+  # init(): host arrays in C order, Fortran order (a transposed weight matrix) or strided views; continuing from the restored
+  # parameters gives the same states as continuing from the original ones
+  from fedjax.core import serialization  # pylint: disable=g-import-not-at-top
+  from fedjax.algorithms import fed_avg as fed_avg_mod  # pylint: disable=g-import-not-at-top
+  from fedjax.core import models as core_models  # pylint: disable=g-import-not-at-top
+
+  def lin_loss(params, batch, rng_):
+    return 0.5 * jnp.sum((batch['x'] @ params['w'] + params['b'] - batch['y']) ** 2, axis=-1)
+
+  lin_alg = fed_avg_mod.federated_averaging(core_models.grad(lin_loss), fedjax.optimizers.sgd(0.125), fedjax.optimizers.sgd(1.0, momentum=0.5),
+                                            fedjax.ShuffleRepeatBatchHParams(batch_size=2, num_epochs=1, seed=5))
+  nrs = np.random.RandomState(ctx.seed + 3)
+  lin_clients = [(b'l%d' % i, fedjax.ClientDataset({'x': nrs.randn(3, 3).astype(np.float32), 'y': nrs.randn(3, 2).astype(np.float32)}), jax.random.PRNGKey(70 + i)) for i in range(3)]
+  w0 = nrs.randn(2, 3).astype(np.float32)
+  big_w = nrs.randn(6, 4).astype(np.float32)
+  layouts = {'C order': np.ascontiguousarray(w0.T), 'Fortran order (transposed)': w0.T, 'strided view': big_w[::2, ::2][:3, :2], 'device array': jnp.asarray(w0.T)}
+  ev_l, intern_l = [], Interner()
+  for lname, wmat in layouts.items():
+    try:
+      p_in = {'w': wmat, 'b': np.zeros((2,), np.float32)}
+      p_back = serialization.msgpack_deserialize(serialization.msgpack_serialize(p_in))
+      ev_l.append({'e': 'Fact', 'name': 'RoundtripEqual', 'about': f'msgpack round trip of initial parameters in {lname}', 'holds': fingerprint(p_back) == fingerprint(p_in)})
+      for tag, p_ in (('original', p_in), ('restored', p_back)):
+        st_l = lin_alg.init(p_)
+        for rr in range(2):
+          before = fingerprint(st_l)
+          st_l, _ = lin_alg.apply(st_l, lin_clients)
+          ev_l.append({'e': 'Call', 'key': f'linear fed_avg:apply(state={intern_l(before)}, round {rr + 1})', 'out': intern_l(fingerprint(st_l))})
+      ctx.case(key=('msgpack-initial-parameters', lname), nontrivial=True)
+    except Exception as ex:  # pylint: disable=broad-except
+      ctx.violation(f'exception:msgpack-initial-parameters:{type(ex).__name__}', f'{type(ex).__name__}: {str(ex)[:200]} for initial parameters in {lname}', replay={'layout': lname})
+  traces.append({'events': ev_l, 'meta': {'algorithm': 'fed_avg from msgpack-restored initial parameters', 'histories': len(layouts)}})
   # continuation in ANOTHER INTERPRETER (different PYTHONHASHSEED): the same calls must give the same outputs there
   import json  # pylint: disable=g-import-not-at-top
   import subprocess  # pylint: disable=g-import-not-at-top
